@@ -12,7 +12,8 @@ import Mathlib.Tactic.SplitIfs
     zero test `hi | lo == 0`, `int` comparisons) into linear arithmetic over `toNat`, splits every `if` of both sides
     (`split_ifs`: a condition that occurs on both sides is decided once) and closes each leaf by `rfl` or by `omega`
     after pushing `toNat` through the word operations.  Bit-level subterms (`&&&`, `<<<` …) are atoms for `omega`, so they
-    have to occur in the same form on both sides; arithmetic, comparisons and control flow may be rearranged freely. -/
+    have to occur in the same form on both sides, and so do the calls of `math/bits` (the contract terms `add64 sub64
+    mul64` are not unfolded); arithmetic, comparisons and control flow may be rearranged freely. -/
 
 namespace GenTie
 abbrev W := BitVec 64
@@ -63,8 +64,6 @@ theorem toInt_neg (x : W) : x.toInt < 0 ↔ 9223372036854775808 ≤ x.toNat := b
 theorem toInt_nonneg (x : W) : 0 ≤ x.toInt ↔ x.toNat < 9223372036854775808 := by
   rw [toInt_eq]; split <;> omega
 
-theorem toNat_int_toNat (n : Nat) : (n : Int).toNat = n := Int.toNat_natCast n
-
 theorem I128_eq (a b : I128) : a = b ↔ a.hi.toNat = b.hi.toNat ∧ a.lo.toNat = b.lo.toNat := by
   cases a; cases b
   simp only [I128.mk.injEq, BitVec.toNat_eq]
@@ -97,8 +96,6 @@ theorem popAux_le : ∀ (f x : Nat), U128.popAux f x ≤ f
 
 theorem popcount_le (x : W) : U128.popcount x ≤ 64 := popAux_le 64 _
 
-
-
 /-- the contract results as bounded numbers: `omega` knows `Fin.isLt`, so the `int` arithmetic on them cannot wrap -/
 def len64F (x : W) : Fin 65 := ⟨U128.len64 x, by have := U128.len64_le x; omega⟩
 def clzF (x : W) : Fin 65 := ⟨U128.clz x, by have := clz_le x; omega⟩
@@ -126,8 +123,8 @@ theorem toNat_lit_sub (x : W) (k : Nat) (hk : k < 2^64) (h : x.toNat ≤ k) :
 /-! ## model-side normal forms: the model's `Int` index instantiated with the value of a Go `int` word
     (statements about the hand-written model only; they do not change when the Go code changes) -/
 
-
-theorem int_idx (i : W) (h : i.toNat < 9223372036854775808) : i.toInt.toNat = i.toNat ∧ (i.toInt - 64).toNat = i.toNat - 64 := by
+theorem int_idx (i : W) (h : i.toNat < 9223372036854775808) :
+    i.toInt.toNat = i.toNat ∧ (i.toInt - 64).toNat = i.toNat - 64 := by
   rw [toInt_eq]; simp only [h, if_true]; omega
 
 /-- `Bit` of the model at an `int` index given by its 64-bit pattern -/
@@ -157,10 +154,6 @@ theorem setBit_w (u : U128) (i b : W) : U128.setBit u i.toInt b.toNat =
   · rw [toInt_eq]; simp only [h, if_false]
     split_ifs <;> first | rfl | omega
 
-/-- carry / borrow words of the `math/bits` contracts, as numbers -/
-theorem borrow_toNat (p : Prop) [Decidable p] : (if p then 1#64 else 0#64).toNat = if p then 1 else 0 := by
-  split <;> rfl
-
 end GenTie
 
 /-! ## the proof script -/
@@ -178,6 +171,24 @@ macro "gen_norm" : tactic => `(tactic| (
     BitVec.reduceNe, Nat.not_lt, Nat.not_le, Int.not_lt, Int.not_le, decide_eq_true_eq, Bool.or_eq_true,
     Bool.and_eq_true, Bool.not_eq_true', decide_eq_false_iff_not] at *)))
 
+open Lean Elab Tactic Meta in
+/-- `gen_guard n` fails when the goal and its hypotheses contain more than `n` occurrences of `%`, `/`, `*`, `<<<`,
+    `>>>`: `omega` eliminates each of them with new variables and case splits and needs minutes to give up on an
+    unprovable goal of that size (a changed `Mul64`, say); the script must fail fast instead -/
+elab "gen_guard " n:num : tactic => withMainContext do
+  let g ← getMainGoal
+  let mut es := #[← instantiateMVars (← g.getType)]
+  for d in ← getLCtx do
+    if !d.isImplementationDetail then es := es.push (← instantiateMVars d.type)
+  let cnt ← IO.mkRef 0
+  for e in es do
+    e.forEach fun s => do
+      if s.getAppNumArgs == 6 && (s.isAppOf ``HMod.hMod || s.isAppOf ``HDiv.hDiv || s.isAppOf ``HMul.hMul ||
+          s.isAppOf ``HShiftRight.hShiftRight || s.isAppOf ``HShiftLeft.hShiftLeft) then
+        cnt.modify (· + 1)
+  if (← IO.getEnv "GEN_GUARD_TRACE").isSome then logInfo m!"gen_guard count {← cnt.get}"
+  if (← cnt.get) > n.getNat then throwError "gen_guard: {← cnt.get} arithmetic operators, too many for omega"
+
 /-- close one leaf: syntactic identity, or linear arithmetic over `toNat` -/
 macro "gen_leaf" : tactic => `(tactic| first
   | with_reducible rfl
@@ -188,8 +199,8 @@ macro "gen_leaf" : tactic => `(tactic| first
         Bool.and_eq_false_imp, Bool.true_eq_false, Bool.false_eq_true, eq_self_iff_true, true_iff, iff_true,
         false_iff, iff_false, not_true_eq_false, not_false_eq_true,
         BitVec.toNat_eq, BitVec.toNat_ne, bitvec_to_nat, Int.toNat_natCast, Nat.reducePow,
-        and_self, and_true, true_and] at *) <;> omega)
-  | (simp_all <;> omega))
+        and_self, and_true, true_and] at *) <;> gen_guard 12 <;> omega)
+  | (simp_all <;> gen_guard 12 <;> omega))
 
 /-- one attempt: state a `Bool` equation as an equivalence, unfold every generated function (simp set `gen_def`) and
     the model definitions `defs` while turning `Bool` connectives into propositions, only then unfold the generated
@@ -204,13 +215,12 @@ macro_rules
         Bool.true_eq_false, eq_self_iff_true]) <;>
       (try simp only [gen_const, $cs,*]) <;> gen_norm <;> (try split_ifs) <;> gen_leaf)
 
-/-- `gen_tie [defs] [consts]`: first with the `math/bits` contracts (`add64 sub64 mul64`) kept as opaque terms — enough
-    whenever the Go code calls them as the model does —, then with the contracts unfolded into arithmetic (a rewrite
-    that replaces `bits.Sub64(x, 1, 0)` by a comparison and two subtractions is still proved) -/
+/-- `gen_tie [defs] [consts]`.  The `math/bits` contracts (`add64 sub64 mul64`) stay opaque terms: the Go code has to
+    call them with the same arguments as the model does.  (Unfolding them into arithmetic as a second attempt proves
+    more rewrites — `Dec` without `bits.Sub64`, say — but `omega` then needs minutes to give up on an unprovable goal,
+    and a changed behaviour has to be reported within the time budget of the quick tier.) -/
 syntax "gen_tie" "[" Lean.Parser.Tactic.simpLemma,* "]" ("[" Lean.Parser.Tactic.simpLemma,* "]")? : tactic
 macro_rules
-  | `(tactic| gen_tie []) => `(tactic| gen_tie [eq_self_iff_true])
-  | `(tactic| gen_tie [$ls,*]) => `(tactic| gen_tie [$ls,*] [eq_self_iff_true])
-  | `(tactic| gen_tie [$ls,*] [$cs,*]) => `(tactic| first
-      | gen_tie_core [$ls,*] [$cs,*]
-      | gen_tie_core [$ls,*, U128.add64, U128.sub64, U128.mul64] [$cs,*])
+  | `(tactic| gen_tie []) => `(tactic| gen_tie_core [eq_self_iff_true] [eq_self_iff_true])
+  | `(tactic| gen_tie [$ls,*]) => `(tactic| gen_tie_core [$ls,*] [eq_self_iff_true])
+  | `(tactic| gen_tie [$ls,*] [$cs,*]) => `(tactic| gen_tie_core [$ls,*] [$cs,*])
